@@ -128,6 +128,27 @@ def handle (parts : List String) : String :=
         | none => "E"
       "M=" ++ showDec o ++ " n=" ++ toString o.steps ++ " a=" ++ toString o.alloc ++ " S=" ++ spec
     | none => "bad-op"
+  | ["wfault", f, ln, ind, toks, ks, md] =>
+    match parseToks toks, parseNat ks, parseHex ind with
+    | some ts, some k, some indent =>
+      let mode : WMode := match md.toList.head? with | some 'e' => .err | some 's' => .short | _ => .both
+      let flt : WFault := ⟨k, mode, md.endsWith "1"⟩
+      let line : Option Bytes := if ln == "nil" then none else parseHex ln
+      let r := if f == "cbor" then runFaulty CborEnc.step (some flt) CborEnc.init {} ts
+               else runFaulty (JsonEnc.step ⟨line, indent⟩ FloatText.jsonFloat) (some flt) JsonEnc.init {} ts
+      "M=" ++ showFlags r.1 ++ " c=" ++ toString r.2
+    | _, _, _ => "bad-op"
+  | ["rfault", f, hx, ks, st] =>
+    match parseHex hx, parseNat ks with
+    | some bs, some k =>
+      let rd : Rd := ⟨bs, some (k, st == "1"), 0⟩
+      if f == "cbor" then
+        let o := CborDec.decode false rd
+        "M=" ++ showToks o.toks ++ "/" ++ (match o.res with | .ok _ => "ok" | .error e => errClass e)
+      else
+        let o := JsonDec.decode rd
+        "M=" ++ showToks o.toks ++ "/" ++ (match o.res with | .ok _ => "ok" | .error e => errClass e)
+    | _, _ => "bad-op"
   | ["rdops", hx, sch, eof, ops] =>
     match parseHex hx, parseSchedule sch with
     | some bs, some chunks =>
